@@ -482,6 +482,14 @@ def _run(pid, P, tier, seed, scratch, t0):
         for c in clauses:
             obligations.append(dict(id='%s' % c['id'], cfg=r['cfg'], where=c['where'], text=' '.join(c['text'])[:300],
                                     backend='verus/z3'))
+        if pid == 'C15' and r is runs[0]:
+            # no hidden state: an exec function the verifier reads is a function of its arguments and of the results of its callees;
+            # statics, thread-locals, interior mutability and I/O are constructs it rejects, and the only callees outside it are the
+            # declared ASSUME.* / KANI.* items (clock, HashMap plumbing). A function it could not read this run may consult anything.
+            for q in verified_fns:
+                obligations.append(dict(id='PURE.%s' % q, cfg=r['cfg'], where=q,
+                                        text='the body is read by the verifier (no static, thread-local, interior mutability or I/O) and calls only '
+                                             'functions under contract or declared externals', backend='verus/z3'))
         if pid in SAFETY_PROPS:
             for q in verified_fns:
                 obligations.append(dict(id='SAFETY.%s' % q, cfg=r['cfg'], where=q,
@@ -554,6 +562,21 @@ def _run(pid, P, tier, seed, scratch, t0):
                 rel_fail.append(pf)
             else:
                 inconclusive.append(dict(message='UNDECIDED clause %s: `%s` %s' % (c['id'], q, undecided_fns[q]), rendered='', cfg=''))
+    if pid == 'C15' and undecided_fns:
+        pf = dict(id='%s|undecided|PURE' % '+'.join(sorted(undecided_fns)), fn=sorted(undecided_fns)[0], kind='undecided', clause='C15.undecided',
+                  cfg=runs[0]['cfg'], message='%s could not be read by the verifier (%s): whether it consults hidden state is undecided — and a concrete sequence of '
+                  'compilations gives different answers for the same input' % (', '.join('`%s`' % q for q in sorted(undecided_fns)), list(undecided_fns.values())[0]),
+                  rendered='', repo_file=None, repo_line=None, expr='')
+        try:
+            import witness
+            witness.find(pid, pf, REPO, scratch)
+        except Exception as ex_:
+            pf['witness_error'] = str(ex_)
+        if pf.get('replayed'):
+            rel_fail.append(pf)
+        else:
+            for q in undecided_fns:
+                inconclusive.append(dict(message='UNDECIDED purity of `%s`: %s' % (q, undecided_fns[q]), rendered='', cfg=''))
     if pid in SAFETY_PROPS and undecided_fns:
         # panic freedom of a function the verifier could not read this run: a concrete input that panics still settles it
         pf = dict(id='%s|undecided|SAFETY' % '+'.join(sorted(undecided_fns)), fn=sorted(undecided_fns)[0], kind='undecided', clause='SAFETY.undecided',
@@ -702,7 +725,10 @@ def _run(pid, P, tier, seed, scratch, t0):
     for o in obligations:
         bad = None
         for f in fail_by.get(o['cfg'], []):
-            if o['id'].startswith('SAFETY.'):
+            if o['id'].startswith('PURE.'):
+                if f.get('clause') == 'C15.undecided' and o['where'] in f['id']:
+                    bad = f
+            elif o['id'].startswith('SAFETY.'):
                 if f['fn'] == o['where'] and (not f['clause'] or f['kind'] in ('overflow', 'bounds', 'unreachable',
                                                                                 'termination', 'divzero', 'precondition', 'panic')):
                     bad = f
